@@ -5,8 +5,11 @@ import multiprocessing as mp
 from concurrent.futures import ThreadPoolExecutor
 
 VERIF = os.path.dirname(os.path.dirname(os.path.abspath(__file__)))
-COQ = os.path.join(VERIF, "coq")
-BUILD = os.path.join(VERIF, "build")
+# A run against another tree (KA_REPO=...) may be given a private copy of the Coq development and a private build
+# directory (KA_COQ_DIR, KA_BUILD_DIR): coq/Gen is regenerated from the tree under test, so private copies let several
+# such runs proceed at once without touching the development that the registered commands use.
+COQ = os.environ.get("KA_COQ_DIR") or os.path.join(VERIF, "coq")
+BUILD = os.environ.get("KA_BUILD_DIR") or os.path.join(VERIF, "build")
 REPO = os.environ.get("KA_REPO", "/repo")
 SRC = os.path.join(REPO, "src")
 NCPU = min(16, os.cpu_count() or 4)
@@ -515,10 +518,14 @@ def expect_sessions(rep, rundir, prop, items, kind="session-expectation"):
         got = last.get("value") if last.get("status") == 0 else ("E:status%r/%s" % (last.get("status"), last.get("escaped")))
         ok = want(last) if callable(want) else got == want
         if not ok:
+            def short(x):
+                x = str(x)
+                return x if len(x) < 160 else "%s...(%d characters)" % (x[:80], len(x))
             rep.violation(dict(kind=kind, what=what[:40]),
                           "%s fails (%s): after %s the last input gives %s (displayed %r), expected %s"
-                          % (prop, what, " ;; ".join(inputs), got, (last.get("out") or "").strip()[:60], "the stated relation" if callable(want) else want),
-                          dict(text=" ;; ".join(inputs), inputs=list(inputs), impl=got, expected=None if callable(want) else want))
+                          % (prop, what, " ;; ".join(inputs), short(got), (last.get("out") or "").strip()[:60],
+                             "the stated relation" if callable(want) else short(want)),
+                          dict(text=" ;; ".join(inputs), inputs=list(inputs), impl=short(got), expected=None if callable(want) else short(want)))
     return n
 
 
